@@ -9,6 +9,7 @@ mod families;
 mod glue;
 mod refmodel;
 mod report;
+mod sym;
 
 use explore::*;
 use report::Evidence;
@@ -59,6 +60,30 @@ fn main() {
             // cross-dependence: every order of Gold's 8 non-rabbit pieces on the first 8 squares (then rabbits) x Silver prefixes
             ev.nontrivial_rule = "states = distinct placement prefixes (trie nodes), transitions = real place() calls; non-trivial = complete 32-piece setups reached (leaves of a Silver trie), each checked for the start-of-play conditions".into();
             ev.nontrivial_keys = vec!["c09_complete_setups"];
+        }
+        "C11" => {
+            let deadline = Some(t0 + Duration::from_secs(if thorough { 3600 } else { 40 }));
+            let cfgs = e2::configs(thorough);
+            use rayon::prelude::*;
+            let rs: Vec<_> = cfgs.par_iter().enumerate().map(|(i, c)| sym::run_config(id, c, i as u64)).collect();
+            for r in rs {
+                eprintln!("  {} : states={} transitions={} {:.1}s {}", r.family, r.stats.states, r.stats.transitions, r.wall_s, r.note);
+                ev.families.push(r);
+            }
+            let mut fams = vec![families::f1(), families::f2(), families::fd(2, 2, families::all_anchors(2, 2), 3, "all 49 anchors"), families::fs(&verif_dir().join("seeds"))];
+            if thorough {
+                fams.push(families::f3w(None, &families::ALL_KINDS, "all 36 windows, all 12 kinds"));
+            }
+            for fam in fams.iter() {
+                if fam.n == 0 || report::stopped() {
+                    continue;
+                }
+                let r = sym::run_family(id, fam, deadline);
+                eprintln!("  {} : roots={} states={} transitions={} {:.1}s {}", r.family, r.stats.roots, r.stats.states, r.stats.transitions, r.wall_s, r.note);
+                ev.families.push(r);
+            }
+            ev.nontrivial_rule = "states = distinct primary states, each compared with its 3 images (counter c11_state_pairs_compared); non-trivial = primary states where the repetition rules withhold something + capturing transitions".into();
+            ev.nontrivial_keys = vec!["c11_states_with_withheld_action", "c11_capturing_transitions"];
         }
         "C15" => run_c15(thorough, &mut ev, t0),
         "C16" => {
